@@ -303,15 +303,32 @@ theorem ipHas_nss (c : Cluster) (ns : String) (s : Selector) (a : IP) :
   · rintro ⟨q, hq, hip, n, hn, hqn, hm⟩
     exact ⟨q, ⟨n, ⟨hn, hm⟩, hq, hqn.symm⟩, hip⟩
 
-/-- podSelector peer in a cluster whose pods all live in the policy's namespace -/
-theorem ipHas_pods (c : Cluster) (ns : String) (s : Selector) (a : IP) (h1 : c.pods.all (fun q => q.ns == ns) = true) :
+/-- podSelector peer when every pod the selector matches lives in the policy's namespace -/
+theorem ipHas_pods (c : Cluster) (ns : String) (s : Selector) (a : IP)
+    (h1 : c.pods.all (fun q => !(s.matches q.labels) || q.ns == ns) = true) :
     ipHas (peerIpEntries c (.pods s)) a = peerMatches c ns a (.pods s) := by
   simp only [peerIpEntries, ipHas_entriesOf, podsBySelector, peerMatches, List.any_filter, Bool.true_and]
   apply any_congr'
   intro q hq
   have := (List.all_eq_true.mp h1) q hq
-  simp only [beq_iff_eq] at this
-  simp [this, Bool.and_comm]
+  cases hm : s.matches q.labels
+  · simp
+  · simp only [hm, Bool.not_true, Bool.false_or] at this
+    simp [this, Bool.and_comm]
+
+/-- peer with both selectors when every pod the pod selector matches lives in a namespace the namespace selector
+    matches -/
+theorem ipHas_both (c : Cluster) (ns : String) (n s : Selector) (a : IP)
+    (h1 : c.pods.all (fun q => !(s.matches q.labels) || nsMatches c n q.ns) = true) :
+    ipHas (peerIpEntries c (.both n s)) a = peerMatches c ns a (.both n s) := by
+  simp only [peerIpEntries, ipHas_entriesOf, podsBySelector, peerMatches, List.any_filter, Bool.true_and]
+  apply any_congr'
+  intro q hq
+  have := (List.all_eq_true.mp h1) q hq
+  cases hm : s.matches q.labels
+  · simp
+  · simp only [hm, Bool.not_true, Bool.false_or] at this
+    simp [this, Bool.and_comm]
 
 theorem ruleIpHas_eq (c : Cluster) (p : NetPol) (r : Rule) (hok : r.peers.all (peerOK c p) = true) (a : IP) :
     ruleIpHas c r a = r.peers.any (fun x => x.isIpKind && peerMatches c p.ns a x) := by
@@ -322,7 +339,7 @@ theorem ruleIpHas_eq (c : Cluster) (p : NetPol) (r : Rule) (hok : r.peers.all (p
   cases x with
   | nss s => rw [ipHas_nss c p.ns]
   | pods s => rw [ipHas_pods c p.ns s a (by simpa [peerOK] using hx')]
-  | both n s => simp [peerOK] at hx'
+  | both n s => rw [ipHas_both c p.ns n s a (by simpa [peerOK] using hx')]
   | block cd ex => simp [Peer.isIpKind]
 
 def blockEntries (b : Cidr × List Cidr) : List Entry :=
@@ -344,54 +361,86 @@ theorem any_blocks (c : Cluster) (ns : String) (a : IP) (peers : List Peer) :
 
 theorem masked_len (c : Cidr) : c.masked.len = c.len := rfl
 
-theorem netMatch_single (a : IP) (b : Cidr × List Cidr) (h : b.2.all (fun e => b.1.len < e.len) = true) :
-    netMatch (blockEntries b) a = blockMatch a b := by
-  obtain ⟨cd, ex⟩ := b
-  simp only [List.all_eq_true, decide_eq_true_eq] at h
-  simp only [netMatch, blockEntries, blockMatch, List.any_cons, List.all_cons, List.any_map, List.all_map,
-    inCidr_masked, Bool.true_and, Function.comp_def, any_false', Bool.or_false, masked_len]
-  congr 1
-  apply all_congr'
-  intro e he
-  have hle : cd.len ≤ e.len := Nat.le_of_lt (h e he)
-  simp [hle]
+theorem div_pow_of_le {a b k1 k2 : Nat} (hk : k1 ≤ k2) (h : a / 2 ^ k1 = b / 2 ^ k1) : a / 2 ^ k2 = b / 2 ^ k2 := by
+  have e : 2 ^ k2 = 2 ^ k1 * 2 ^ (k2 - k1) := by rw [← Nat.pow_add, Nat.add_sub_cancel' hk]
+  rw [e, ← Nat.div_div_eq_div_mul, ← Nat.div_div_eq_div_mul, h]
 
-theorem netMatch_noExcept (a : IP) (bs : List (Cidr × List Cidr)) (h : bs.all (fun b => b.2.isEmpty) = true) :
+/-- an address in two CIDRs makes them overlap -/
+theorem overlap_of_common (a : IP) (e c : Cidr) (h1 : inCidr a e = true) (h2 : inCidr a c = true) :
+    cidrOverlap e c = true := by
+  simp only [inCidr, beq_iff_eq] at h1 h2
+  simp only [cidrOverlap, inCidr, Bool.or_eq_true, beq_iff_eq]
+  by_cases hl : e.len ≤ c.len
+  · -- c is at least as specific: compare at e's granularity
+    right
+    have hk : 32 - c.len ≤ 32 - e.len := Nat.sub_le_sub_left hl 32
+    rw [← div_pow_of_le hk h2, h1]
+  · left
+    have hk : 32 - e.len ≤ 32 - c.len := Nat.sub_le_sub_left (Nat.le_of_lt (Nat.lt_of_not_le hl)) 32
+    rw [← div_pow_of_le hk h1, h2]
+
+theorem mem_blockEntries (bs : List (Cidr × List Cidr)) (x : Entry) :
+    x ∈ bs.flatMap blockEntries ↔
+      ∃ b ∈ bs, x = Entry.net b.1.masked false ∨ ∃ e ∈ b.2, x = Entry.net e.masked true := by
+  simp only [List.mem_flatMap, blockEntries, List.mem_cons, List.mem_map]
+  constructor
+  · rintro ⟨b, hb, h | ⟨e, he, rfl⟩⟩
+    · exact ⟨b, hb, Or.inl h⟩
+    · exact ⟨b, hb, Or.inr ⟨e, he, rfl⟩⟩
+  · rintro ⟨b, hb, h | ⟨e, he, rfl⟩⟩
+    · exact ⟨b, hb, Or.inl h⟩
+    · exact ⟨b, hb, Or.inr ⟨e, he, rfl⟩⟩
+
+/-- the shared hash:net set of a rule is faithful under `netOK` -/
+theorem netMatch_blocks (a : IP) (bs : List (Cidr × List Cidr))
+    (h : bs.all (fun b => b.2.all (fun e => decide (b.1.len < e.len) &&
+      bs.all (fun b' => b' == b || !cidrOverlap e b'.1))) = true) :
     netMatch (bs.flatMap blockEntries) a = bs.any (blockMatch a) := by
-  have hE : bs.flatMap blockEntries = bs.map (fun b => Entry.net b.1.masked false) := by
-    induction bs with
-    | nil => rfl
-    | cons b t ih =>
-      simp only [List.all_cons, Bool.and_eq_true, List.isEmpty_iff] at h
-      simp [List.flatMap_cons, blockEntries, h.1, ih h.2]
-  rw [hE]
-  simp only [netMatch, List.any_map, List.all_map, Function.comp_def]
-  have hall : ∀ cd : Cidr, (bs.all (fun x => match Entry.net x.1.masked false with
-      | Entry.net c' true => !(inCidr a c' && decide (cd.len ≤ c'.len))
-      | _ => true)) = true := by
-    intro cd; rw [List.all_eq_true]; intro x _; rfl
-  apply any_congr'
-  intro b hb
-  have hb' : b.2 = [] := by
-    have := (List.all_eq_true.mp h) b hb
-    simpa [List.isEmpty_iff] using this
-  simp [hall, blockMatch, inCidr_masked, hb']
+  have hok : ∀ b ∈ bs, ∀ e ∈ b.2, b.1.len < e.len ∧ ∀ b' ∈ bs, b' = b ∨ cidrOverlap e b'.1 = false := by
+    intro b hb e he
+    have := (List.all_eq_true.mp ((List.all_eq_true.mp h) b hb)) e he
+    simp only [Bool.and_eq_true, decide_eq_true_eq, List.all_eq_true, Bool.or_eq_true, beq_iff_eq,
+      Bool.not_eq_true'] at this
+    exact this
+  rw [Bool.eq_iff_iff]
+  unfold netMatch
+  simp only [List.any_eq_true, List.all_eq_true]
+  constructor
+  · rintro ⟨x, hx, hm⟩
+    obtain ⟨b, hb, hx' | ⟨e, _, hx'⟩⟩ := (mem_blockEntries bs x).mp hx
+    · subst hx'
+      simp only [Bool.and_eq_true, List.all_eq_true, inCidr_masked, masked_len] at hm
+      refine ⟨b, hb, ?_⟩
+      simp only [blockMatch, Bool.and_eq_true, List.all_eq_true, Bool.not_eq_true']
+      refine ⟨hm.1, fun e he => ?_⟩
+      have := hm.2 (Entry.net e.masked true) ((mem_blockEntries bs _).mpr ⟨b, hb, Or.inr ⟨e, he, rfl⟩⟩)
+      simp only [inCidr_masked, masked_len, Bool.not_eq_true', Bool.and_eq_false_iff, decide_eq_false_iff_not] at this
+      rcases this with h1 | h1
+      · exact h1
+      · have h2 : ¬ b.1.len ≤ e.len := of_decide_eq_false h1
+        exact absurd (Nat.le_of_lt (hok b hb e he).1) h2
+    · subst hx'; simp at hm
+  · rintro ⟨b, hb, hm⟩
+    simp only [blockMatch, Bool.and_eq_true, List.all_eq_true, Bool.not_eq_true'] at hm
+    refine ⟨Entry.net b.1.masked false, (mem_blockEntries bs _).mpr ⟨b, hb, Or.inl rfl⟩, ?_⟩
+    simp only [Bool.and_eq_true, List.all_eq_true, inCidr_masked, masked_len]
+    refine ⟨hm.1, fun y hy => ?_⟩
+    obtain ⟨b', hb', hy' | ⟨e, he, hy'⟩⟩ := (mem_blockEntries bs y).mp hy
+    · subst hy'; rfl
+    · subst hy'
+      simp only [inCidr_masked, masked_len, Bool.not_eq_true', Bool.and_eq_false_iff]
+      left
+      cases hc : inCidr a e
+      · rfl
+      · exfalso
+        rcases (hok b' hb' e he).2 b hb with heq | hno
+        · subst heq; rw [hm.2 e he] at hc; cases hc
+        · rw [overlap_of_common a e b.1 hc hm.1] at hno; cases hno
 
 theorem ruleNetHas_eq (c : Cluster) (ns : String) (r : Rule) (hnet : netOK r = true) (a : IP) :
     ruleNetHas r a = r.peers.any (fun x => !x.isIpKind && peerMatches c ns a x) := by
   rw [ruleNetHas, netEntries_blocks, any_blocks]
-  unfold netOK at hnet
-  simp only [Bool.or_eq_true, Bool.and_eq_true, decide_eq_true_eq] at hnet
-  rcases hnet with ⟨hlen, hstrict⟩ | hno
-  · match hb : Peer.blocks r.peers with
-    | [] => simp [netMatch_nil]
-    | [b] =>
-      rw [hb] at hstrict
-      simp only [List.all_cons, List.all_nil, Bool.and_true] at hstrict
-      simp only [List.flatMap_cons, List.flatMap_nil, List.append_nil, List.any_cons, List.any_nil, Bool.or_false]
-      exact netMatch_single a b hstrict
-    | _ :: _ :: _ => rw [hb] at hlen; simp at hlen
-  · exact netMatch_noExcept a _ hno
+  exact netMatch_blocks a _ hnet
 
 theorem any_split_kind (peers : List Peer) (f : Peer → Bool) :
     peers.any f = (peers.any (fun x => x.isIpKind && f x) || peers.any (fun x => !x.isIpKind && f x)) := by
